@@ -149,6 +149,9 @@ package shimagent
 //@     (inAgentKeys == nil || (arr(inAgentKeys) == arr(ret(Agent.List, l0, 0)) && off(inAgentKeys) == off(ret(Agent.List, l0, 0)))) && len(inAgentKeys) <= len(ret(Agent.List, l0, 0)))
 //@   ensures [tables-only-shrink] forall(h#bytes, h in dom(s.certs), old(h in dom(s.certs)) && s.certs[h] == old(s.certs[h]))
 //@   ensures [no-orphan-left-when-the-agent-lists-keys] (err == nil && len(ret(Agent.List, l0, 0)) != 0) ==> forall(h#bytes, h in dom(s.certs), backed(s, h, l0))
+//@   ensures [an-empty-listing-drops-only-what-is-outside-its-window] (err == nil && len(ret(Agent.List, l0, 0)) == 0) ==>
+//@     forall(h#bytes, old(h in dom(s.certs)) && certutil.inWindow(old(s.certs[h].Certificate.ValidAfter), old(s.certs[h].Certificate.ValidBefore),
+//@       tUnix(ret(time.Now, old(calls(time.Now)), 0))), h in dom(s.certs))
 //@   ensures [one-clock-sample-per-purge] err == nil ==> calls(time.Now) == old(calls(time.Now)) + 1
 //@   ensures [no-listed-certificate-outside-its-validity-window] err == nil ==> forall(j, 0 <= j && j < len(inAgentKeys),
 //@     okBlob(kb(inAgentKeys[j]), tUnix(ret(time.Now, old(calls(time.Now)), 0))))
@@ -195,6 +198,8 @@ package shimagent
 //@ func filterExpiredCerts(s, certsInMemory, keysInAgent)
 //@   flag inline
 //@   loop 1:
+//@     invariant len(keysInAgent) == len(ret(Agent.List, outer(l0), 0)) || len(ret(Agent.List, outer(l0), 0)) != 0
+//@     invariant len(ret(Agent.List, outer(l0), 0)) == 0 ==> (mapdom(certsInMemory) == outer(old(mapdom(s.certs))) && mapval(certsInMemory) == outer(old(mapval(s.certs))))
 //@     invariant [no-orphan-left-when-the-agent-lists-keys] len(ret(Agent.List, outer(l0), 0)) != 0 ==> forall(h#bytes, h in dom(certsInMemory), backed(outer(s), h, outer(l0)))
 //@     invariant srvOK(outer(s)) && certsInMemory == outer(s).certs
 //@     invariant calls(time.Now) == outer(old(calls(time.Now))) + 1 && now == ret(time.Now, outer(old(calls(time.Now))), 0) && !tIsZero(now)
@@ -208,6 +213,9 @@ package shimagent
 //@     invariant [no-listed-certificate-outside-its-validity-window] errs == nil ==> forall(p, 0 <= p && p < len(outer(inAgentKeys)),
 //@       okBlob(kb(keysInAgent[p]), tUnix(now)) || exists(q, rangeindex < q && q < len(keysInAgent), kb(keysInAgent[q]) == kb(keysInAgent[p])))
 //@   loop 2:
+//@     invariant [an-empty-listing-drops-only-what-is-outside-its-window] len(ret(Agent.List, outer(l0), 0)) == 0 ==>
+//@       forall(h#bytes, outer(old(h in dom(s.certs))), (h in dom(certsInMemory)) ||
+//@         !certutil.inWindow(outer(old(s.certs[h].Certificate.ValidAfter)), outer(old(s.certs[h].Certificate.ValidBefore)), tUnix(now)))
 //@     invariant [no-orphan-left-when-the-agent-lists-keys] len(ret(Agent.List, outer(l0), 0)) != 0 ==> forall(h#bytes, h in dom(certsInMemory), backed(outer(s), h, outer(l0)))
 //@     invariant srvOK(outer(s)) && certsInMemory == outer(s).certs
 //@     invariant calls(time.Now) == outer(old(calls(time.Now))) + 1 && now == ret(time.Now, outer(old(calls(time.Now))), 0) && !tIsZero(now)
